@@ -174,12 +174,13 @@ func progI() schedProgram {
 			func() { _, _ = c.cs.LookupEndpoint("e2") },
 		}
 		check := func(o *vsync.Outcome) []string {
-			msgs := c.mirrored()
-			msgs = append(msgs, c.quiescent()...)
+			var msgs []string
 			_, present := c.gs.Node("nZ")
 			if restoredSeen && !present {
 				msgs = append(msgs, "restored-node-forgotten: nZ was heard from and restored by the liveness task (reachable, no expiry), and was forgotten by the sweep afterwards")
 			}
+			msgs = append(msgs, c.mirrored()...)
+			msgs = append(msgs, c.quiescent()...)
 			last = fmt.Sprintf("%s restored=%v present=%v", c.finalState(), restoredSeen, present)
 			return msgs
 		}
